@@ -3,6 +3,7 @@ package props
 import (
 	"encoding/json"
 	"fmt"
+	"github.com/cespare/xxhash/v2"
 	"sort"
 	"strconv"
 	"strings"
@@ -130,6 +131,8 @@ func (c c01Case) sig() string {
 		ds = fmt.Sprintf("N=%d trail=%d", c.N, c.Trail)
 	case "W":
 		ds = fmt.Sprintf("wide N=%d", wideN)
+	case "H":
+		ds = "values with partly equal keys"
 	default:
 		ds = "rows=" + rowsSig(c.Rows)
 	}
@@ -202,6 +205,8 @@ func c01Worker(ctx *rt.Ctx, job *rt.Job) []*rt.Violation {
 		return c01SpaceC(ctx, job, a)
 	case "W":
 		return c01SpaceW(ctx, job, a)
+	case "H":
+		return c01SpaceH(ctx, job, a)
 	}
 	rt.Harnessf("bad space")
 	return nil
@@ -512,6 +517,69 @@ func c01SpaceW(ctx *rt.Ctx, job *rt.Job, a c01Args) []*rt.Violation {
 	return nil
 }
 
+// ---- Space H: values whose 64-bit keys coincide in part -----------------------------------
+
+// hashPairs finds, by birthday search over the values h0, h1, ... of column "h", pairs whose keys (xxhash64 of
+// column NUL value, the derivation in writer.go) coincide in their low 32 bits, in their high 32 bits and in their low
+// 16 bits: the full key is 64 bits wide, and anything that identifies a value by a part of it (a table of known
+// misses, a shard index, a 32-bit field) confuses exactly such pairs.
+func hashPairs() [][2]string {
+	key := func(v string) uint64 { return xxhash.Sum64(append(append([]byte("h"), 0), []byte(v)...)) }
+	var out [][2]string
+	for _, part := range []func(uint64) uint64{func(k uint64) uint64 { return k & 0xffffffff }, func(k uint64) uint64 { return k >> 32 }, func(k uint64) uint64 { return k & 0xffff }, func(k uint64) uint64 { return k >> 48 }} {
+		seen := map[uint64]string{}
+		for i := 0; i < 2000000; i++ {
+			v := "h" + strconv.Itoa(i)
+			p := part(key(v))
+			if w, ok := seen[p]; ok {
+				out = append(out, [2]string{w, v})
+				break
+			}
+			seen[p] = v
+		}
+	}
+	return out
+}
+
+var hashPairsMemo [][2]string
+
+func hashRow(i int) model.Row {
+	if hashPairsMemo == nil {
+		hashPairsMemo = hashPairs()
+	}
+	// the first value of every pair occurs (on a few rows each), the second one only for the last pair
+	r := model.Row{"id": strconv.Itoa(i)}
+	np := len(hashPairsMemo)
+	switch {
+	case i < 5*np:
+		r["h"] = hashPairsMemo[i/5][0]
+	case i < 5*np+3:
+		r["h"] = hashPairsMemo[np-1][1]
+	}
+	return r
+}
+
+func c01SpaceH(ctx *rt.Ctx, job *rt.Job, a c01Args) []*rt.Violation {
+	hashRow(0)
+	n := 5*len(hashPairsMemo) + 6
+	var exprs []*model.Expr
+	for _, p := range hashPairsMemo {
+		absent, present := model.Eq("h", p[1]), model.Eq("h", p[0])
+		// the partner first (a miss, except for the last pair), then the value itself, then the partner again
+		exprs = append(exprs, absent, present, model.Not(absent), model.Not(present), absent, model.Or(absent, present), model.And(present, model.Not(absent)))
+	}
+	uex := make([]updog.Expression, len(exprs))
+	for i, e := range exprs {
+		uex[i] = e.Updog()
+	}
+	if v := c01CheckDataset(ctx, "H", n, 0, hashRow, nil, exprs, uex, 0, len(exprs), true); v != nil {
+		return []*rt.Violation{v}
+	}
+	ctx.Cov.Add("datasets", 1)
+	ctx.Cov.Sample(1, map[string]any{"space": "H", "pairs_with_partly_equal_keys": hashPairsMemo, "parts": []string{"low 32 bits", "high 32 bits", "low 16 bits", "high 16 bits"}})
+	return nil
+}
+
 // ---- Space C: truth-table dataset ------------------------------------------------------
 
 // truthRows: the 8 membership combinations of a=1,b=1,c=1 with multiplicities 1,2,4,...,128, so that the
@@ -577,6 +645,9 @@ func c01CheckCase(ctx *rt.Ctx, c c01Case) *rt.Violation {
 		rowf, n = func(i int) model.Row { return rows[i] }, len(rows)
 	case "W":
 		rowf, n = wideRow, wideN
+	case "H":
+		hashRow(0)
+		rowf, n = hashRow, 5*len(hashPairsMemo)+6
 	default:
 		rowf = func(i int) model.Row { return c.Rows[i] }
 	}
@@ -649,6 +720,7 @@ func c01Run(ctx *rt.Ctx) []*rt.Violation {
 		add("C", c01Args{Space: "C", Depth: 2, Arity: 3}, 16)
 	}
 	add("W", c01Args{Space: "W"}, 1)
+	add("H", c01Args{Space: "H"}, 1)
 	outs := rt.RunJobs(ctx, jobs, rt.SpawnOpt{})
 	vs := rt.Collect(ctx, outs, nil)
 	// an expression object executed, edited in place by the caller, and executed again (no cache involved)
